@@ -7,6 +7,7 @@ package memcon
 import (
 	"io"
 	"sync"
+	"time"
 
 	"github.com/containerd/console"
 
@@ -51,6 +52,10 @@ type Console struct {
 	ReadChunk int
 	// FailWrites makes Write return an error after the terminal saw the data.
 	FailWrites error
+	// PostWriteDelay, if set, is asked (under the console lock) how long Write
+	// should linger after the terminal has processed p and its replies have
+	// been queued for reading.
+	PostWriteDelay func(p []byte) time.Duration
 }
 
 var _ console.Console = (*Console)(nil)
@@ -96,8 +101,22 @@ func (c *Console) Read(p []byte) (int, error) {
 }
 
 func (c *Console) Write(p []byte) (int, error) {
+	n, err, d := c.write(p)
+	if d > 0 {
+		// the terminal has answered already; the writer is held up before it
+		// returns to its caller (slow tty, descheduled thread)
+		time.Sleep(d)
+	}
+	return n, err
+}
+
+func (c *Console) write(p []byte) (int, error, time.Duration) {
 	c.mu.Lock()
 	defer c.mu.Unlock()
+	var delay time.Duration
+	if c.PostWriteDelay != nil {
+		delay = c.PostWriteDelay(p)
+	}
 	c.NWrites++
 	c.NBytes += len(p)
 	if c.KeepWrites > 0 && len(c.Writes) < c.KeepWrites {
@@ -117,9 +136,9 @@ func (c *Console) Write(p []byte) (int, error) {
 		c.cond.Broadcast()
 	}
 	if c.FailWrites != nil {
-		return 0, c.FailWrites
+		return 0, c.FailWrites, delay
 	}
-	return len(p), nil
+	return len(p), nil, delay
 }
 
 // Inject queues input bytes as if the user/terminal had sent them.
